@@ -68,6 +68,8 @@ def executable_programs(run, info):
                 p = progen.Program.from_json(j['program'] if 'program' in j else j)
                 p.kind = 'corpus'
                 p.meta['file'] = fn
+                p.meta['expect_class'] = j.get('expect_class')
+                p.meta['finding'] = j.get('finding')
                 yield p
     rng = random.Random(run.rng.getrandbits(48))
     for p in ds.scenario_programs(rng, b['scenario_scale']):
@@ -158,7 +160,7 @@ MAX_TALLY_TRACES = 6
 
 
 def _obs_key(o):
-    return (o['kind'], o['act'].fid, o['name'], o.get('pre_class'), o.get('sid'), o.get('writer_node'),
+    return (o['kind'], o['act'].fid, o['name'], o.get('pre_class'), o.get('sid'), o.get('writer_node'), o.get('where'),
             None if o.get('view') is None or not o['view'].ok or o.get('i') is None else (o['view'].nodes[o['i']], o['view'].nodes[o['j']]))
 
 
@@ -221,7 +223,7 @@ def _work(task):
                 continue
             seen_fail.add(ok)
             f = {'args': list(args), 'decisions': list(dec), 'detail': o['detail'], 'fid': o['act'].fid, 'pre_class': o.get('pre_class'),
-                 'kind': o['kind'], 'ref': None}
+                 'kind': o['kind'], 'ref': None, 'where': o.get('where')}
             v = o.get('view')
             q = None
             if v is not None and v.ok:
@@ -264,21 +266,18 @@ def _work(task):
 
 def dynamic_phase(run, prop, programs):
     """runs the direct oracle on every program (in worker processes); returns [(key, source)] for the static phase."""
-    import concurrent.futures, multiprocessing
     b = budgets(run)
     t0 = time.time()
     tasks = []
     for p in programs:
         j = p.to_json()
-        j['scenario'] = p.meta.get('scenario')
+        j['kind'] = p.kind
+        for k in ('scenario', 'expect_class', 'finding'):
+            if p.meta.get(k):
+                j[k] = p.meta[k]
         tasks.append((prop, j, b['runs_per_program']))
-    nproc = max(1, min(12, (os.cpu_count() or 2) - 2))
-    if len(tasks) < 8:
-        results = [_work(t) for t in tasks]
-    else:
-        ctx = multiprocessing.get_context('fork')
-        with concurrent.futures.ProcessPoolExecutor(max_workers=nproc, mp_context=ctx) as ex:
-            results = list(ex.map(_work, tasks, chunksize=8))
+    nproc = 1
+    results = [_work(t) for t in tasks]       # ~20 ms per program: not worth a process pool
     stats, feats, kinds, skipped = collections.Counter(), collections.Counter(), collections.Counter(), collections.Counter()
     sources, lines, owner = [], [], []
     for r, t in zip(results, tasks):
@@ -323,13 +322,30 @@ def dynamic_phase(run, prop, programs):
             if answers is not None and f['ref'] is not None:
                 li, ti, qi = f['ref']
                 per_trace = answers[r['line0'] + li][ti]
-                # the 'all' query, when present, is the first query of the trace
                 ans = per_trace[qi]
-            cls = classify(f, ans) if (answers is not None or f['ref'] is None) else None
-            classes[cls or 'UNCLASSIFIED'] += 1
+            f['cls'] = classify(f, ans) if (answers is not None or f['ref'] is None) else None
+            f['lean'] = ans
+    # known-finding protocol (DESIGN 2.7): a class is attributed only while the listed witness itself still fails in it
+    listed = {k.get('class'): k for k in common.load_known_findings() if k.get('property') == prop and k.get('status', 'open') == 'open'}
+    witnessed = set()
+    for r, t in zip(results, tasks):
+        if not r['skipped'] and t[1].get('expect_class'):
+            if any(f['cls'] == t[1]['expect_class'] for f in r['failing']):
+                witnessed.add(t[1]['expect_class'])
+    stale = sorted(c for c in listed if c not in witnessed)
+    for c in stale:
+        run.notes.append('known finding %s: its witness (corpus/%s/%s.json) no longer fails in class %s — the class is not attributed any more; '
+                         'update the model and drop the hypothesis' % (listed[c].get('id'), prop, listed[c].get('id'), c))
+    for r, t in zip(results, tasks):
+        if r['skipped']:
+            continue
+        for f in r['failing']:
+            cls = f['cls'] if f['cls'] not in stale else None
+            classes[f['cls'] or 'UNCLASSIFIED'] += 1
             case = {'program': t[1], 'args': f['args'], 'decisions': f['decisions'], 'function_id': f['fid'], 'observation': f['detail'],
-                    'lean': ans}
+                    'class_predicate': f['cls'], 'lean': f['lean']}
             run.fail('%s: %s' % (prop, f['detail']), case, cls)
+    run.cov['known_finding_witnesses_still_failing'] = sorted(witnessed)
     run.cov['dynamic'] = {'programs': dict(kinds), 'features': dict(feats), 'skipped': dict(skipped), 'stats': dict(stats),
                           'failing_by_class': dict(classes), 'trace_theorem_tally': dict(tally),
                           'wall_s': round(time.time() - t0, 1), 'lean_s': round(time.time() - t1, 1), 'workers': nproc}
@@ -398,7 +414,9 @@ def classify_c07(f, ans):
     cls = set()
     for r in fl.get('readers') or []:
         if r[0] == 'direct':
-            cls.add(None)
+            # a direct read that the node's Scope does not record (hgen of live_sound, property C08): listed only for the
+            # reads of `except <type>:` expressions, which belong to no CFG node at all
+            cls.add('read_in_except_handler_type' if f.get('where') == 'except_type' else None)
             continue
         _, rf = _flags(['closure'] + r[2:])
         if rf.get('covered'):
